@@ -274,6 +274,36 @@ pub fn run(a: &Args) {
                 }
             }
         }
+        // (e) two kinds side by side, in both orders: each value is exposed whatever else is there (one chunk's parser must not touch another
+        //     chunk's value); iCCP + sRGB always, other pairs sampled
+        {
+            let mut pairs: Vec<(&str, &str)> = vec![("iCCP", "sRGB"), ("gAMA", "iCCP"), ("cHRM", "iCCP"), ("cICP", "iCCP")];
+            for _ in 0..3 { let a = *rng.pick(&KINDS); let b2 = *rng.pick(&KINDS); if a != b2 { pairs.push((a, b2)); } }
+            for (ka, kb) in pairs {
+                if !applies(ka, &b.spec) || !applies(kb, &b.spec) { continue; }
+                if ["tEXt", "zTXt", "iTXt"].contains(&ka) && ["tEXt", "zTXt", "iTXt"].contains(&kb) { continue; }
+                let ma = meta_case(ka, &b.spec, plte_entries, &mut rng, false);
+                let mb = meta_case(kb, &b.spec, plte_entries, &mut rng, false);
+                for swap in [false, true] {
+                    let (first, second) = if swap { (&mb, &ma) } else { (&ma, &mb) };
+                    let file = if first.place == second.place { assemble(&insert_at(&chunks, &[first.chunk.clone(), second.chunk.clone()], first.place, false)) }
+                               else { assemble(&insert_at(&insert_at(&chunks, &[first.chunk.clone()], first.place, false), &[second.chunk.clone()], second.place, false)) };
+                    o.mark(&format!("pair {} {}+{} swap={} {}", b.name, ka, kb, swap, if file.len() < 4000 { hex(&file) } else { format!("(len {})", file.len()) }));
+                    let s = summarize(&file, &[0], Opts::default(), 0);
+                    o.direct_checks += 1;
+                    o.count("pairs");
+                    let (ga, gb) = (info_field(&s.info, ma.key).to_string(), info_field(&s.info, mb.key).to_string());
+                    if ga != ma.expected || gb != mb.expected || s.ri != "ok" || s.frames.first() != plain.frames.first() {
+                        o.violation(viol("metadata-not-reported-faithfully", vec![("file", jstr(&b.name)), ("chunk", jstr(&format!("{} next to {}", ka, kb))), ("order_swapped", swap.to_string()),
+                            ("expected", jstr(&format!("{} | {}", ma.expected, mb.expected).chars().take(400).collect::<String>())), ("reported", jstr(&format!("{} | {}", ga, gb).chars().take(400).collect::<String>())),
+                            ("bytes", jstr(&if file.len() < 3000 { hex(&file) } else { format!("(len {})", file.len()) }))]));
+                    }
+                    if file.len() <= 500 && rng.chance(1, 4) {
+                        o.case(&format!("l0 {} {} 0 {}", Opts::default().bits(), 67108864u64, hex(&file)), &strip_d(&run_l0(&[file.clone()], Opts::default(), None).text), &format!("pair-{}-{}", ka, kb), true);
+                    }
+                }
+            }
+        }
         // (c) sRGB overrides the reported gamma and chromaticities
         {
             let g = meta_case("gAMA", &b.spec, plte_entries, &mut rng, false);
